@@ -165,12 +165,15 @@ func runOneCrash(c crCase) (sx.V, sx.V) {
 		phase = 1
 	}
 	add(timed(opStart, func() error { _, err := cl.Start(); return err }))
+	// the accessors take the client's lock: bounded like everything else (a Start that never returns holds it)
 	pid := 0
-	if rc := cl.ReattachConfig(); rc != nil {
-		pid = rc.Pid
-	} else if id, err := strconv.Atoi(cl.ID()); err == nil {
-		pid = id
-	}
+	within(5*time.Second, func() {
+		if rc := cl.ReattachConfig(); rc != nil {
+			pid = rc.Pid
+		} else if id, err := strconv.Atoi(cl.ID()); err == nil {
+			pid = id
+		}
+	})
 	if c.Point <= cpAfterLine {
 		died()
 		phase = 2
@@ -307,7 +310,12 @@ func runOneCrash(c crCase) (sx.V, sx.V) {
 	// exited / context
 	exited, ctxDone := false, 0
 	for {
-		if cl.Exited() {
+		ex := false
+		answered := within(3*time.Second, func() { ex = cl.Exited() })
+		if !answered {
+			break // Exited() itself does not return
+		}
+		if ex {
 			exited = true
 			break
 		}
@@ -347,6 +355,18 @@ func grpcDialAndCall(gb *plugin.GRPCBroker, id uint32) error {
 	defer cc.Close()
 	_, err = vp.NewGRPCCaller(cc, gb).Call(vp.Req{Op: "who"})
 	return err
+}
+
+// within runs f and reports whether it returned within d (f is left behind when it does not).
+func within(d time.Duration, f func()) bool {
+	done := make(chan struct{})
+	go func() { f(); close(done) }()
+	select {
+	case <-done:
+		return true
+	case <-time.After(d):
+		return false
+	}
 }
 
 func runCrash(o opts) error {
